@@ -5,6 +5,7 @@
 //! B-tree op language + plain reference model used by `c10_thread` and
 //! `c04_thread`.
 
+pub mod bm25_case;
 pub mod btree_case;
 
 use serde_json::{Value, json};
